@@ -2181,7 +2181,9 @@ impl Kanata {
             // Concurrent tap-holds beyond the first wait here; their timeouts only run in ticks.
             && self.layout.b().extra_waiting.is_empty()
             && self.layout.b().last_press_tracker.tap_hold_timeout == 0
-            && (self.layout.b().oneshot.timeout == 0 || self.layout.b().oneshot.keys.is_empty())
+            // A one-shot ended by a key press has its timeout cut to rapid-event-delay, which
+            // may be 0; its keys are released by the next tick.
+            && self.layout.b().oneshot.keys.is_empty()
             // The rapid-event-delay pause after a tap-hold/chord/one-shot decision only counts
             // down in ticks; blocking now would apply what is left of it to the next input.
             && self.layout.b().oneshot.pause_input_processing_ticks == 0
@@ -2195,6 +2197,8 @@ impl Kanata {
             && self.macro_on_press_cancel_duration == 0
             && self.move_mouse_state_horizontal.is_none()
             && self.dynamic_macro_replay_state.is_none()
+            // Delays between recorded events are counted in ticks.
+            && self.dynamic_macro_record_state.is_none()
             && self.caps_word.is_none()
             && self.vkeys_pending_release.is_empty()
             && !self.last_tick_had_activity
